@@ -4,7 +4,9 @@ package main
 // non-init function stores to are unknown at function entry.
 
 import (
+	"fmt"
 	"go/token"
+	"os"
 	"go/types"
 	"strings"
 
@@ -20,6 +22,8 @@ func (e *Exec) setupGlobals(pkgs []*packages.Package) {
 				e.note("package initialisers not modelled (" + u.Msg + "): package-level variables are unknown at entry")
 				e.initState = nil
 				e.tolerant = false
+				e.discovery = 0
+				fmt.Fprintln(os.Stderr, "note: package initialisers not modelled:", u.Msg)
 				return
 			}
 			panic(x)
